@@ -50,6 +50,11 @@ def ref_admit(specs, node, t):
         if kind != 'ok':
             raise Reject('unconstructible scalar')
         return ('leaf', encode.value_term(x))
+    if t == 'path':
+        if not isinstance(node, yaml.ScalarNode) or node.tag != T + 'str':
+            raise Reject('expected a path (string)')
+        import pathlib
+        return ('leaf', encode.value_term(pathlib.Path(node.value)))
     if t[0] == 'optional':
         if isinstance(node, yaml.ScalarNode) and node.tag == T + 'null':
             return ('leaf', 'VNone')
@@ -83,6 +88,10 @@ def ref_admit(specs, node, t):
         if not isinstance(node, yaml.ScalarNode) or node.tag not in (T + 'str', T + 'bool') or node.value not in s['members']:
             raise Reject('enum')
         return ('leaf', f'(VEnum {encode.coq_ustr(s["name"])} {encode.coq_ustr(node.value)})')
+    if s['kind'] == 'str':
+        if not isinstance(node, yaml.ScalarNode) or node.tag != T + 'str' or s.get('str'):
+            raise (OutOfScope() if s.get('str') else Reject('string-like'))
+        return ('leaf', f'(VUStr {encode.coq_ustr(s["name"])} {encode.coq_ustr(node.value)})')
     if not isinstance(node, yaml.MappingNode):
         raise Reject('expected mapping')
     keys = []
@@ -159,6 +168,8 @@ def rec_count(specs, node, t):
         return 1
     if t in ('str', 'int', 'float', 'bool'):
         return int(isinstance(node, yaml.ScalarNode) and node.tag == T + t)
+    if t == 'path':
+        return int(isinstance(node, yaml.ScalarNode) and node.tag == T + 'str')
     if t[0] == 'optional':
         return min(2, int(isinstance(node, yaml.ScalarNode) and node.tag == T + 'null') + rec_count(specs, node, t[1]))
     if t[0] == 'union':
@@ -184,6 +195,8 @@ def rec_count(specs, node, t):
     s = loadcase.spec_of(specs, t[1])
     if s['kind'] == 'enum':
         return int(isinstance(node, yaml.ScalarNode) and node.tag in (T + 'str', T + 'bool'))
+    if s['kind'] == 'str':
+        return int(isinstance(node, yaml.ScalarNode) and node.tag == T + 'str')
     if not isinstance(node, yaml.MappingNode):
         return 0
     keys = [k.value if isinstance(k, yaml.ScalarNode) else None for k, _ in node.value]
@@ -351,9 +364,12 @@ def tie(ctx, model_ok=True):
                 yield specs, tyspec, text, desc
 
     def reference_oracle(c):
-        if not c.desc.startswith('flat-') or c.doc is None or c.doc_err is not None:
+        if not c.desc.startswith(('flat-', 'alias-')) or c.doc is None or c.doc_err is not None:
             return None
-        if '<<' in c.text or '&' in c.text or '*' in c.text or not all(x.tag.startswith(T) for x, *_ in loadcase.all_nodes(c.doc)):
+        # (aliases: the documented meaning is that of the document with every alias replaced by a copy -- the composed graph read
+        #  as a tree; only the directed acyclic alias family is judged here)
+        if '<<' in c.text or (('&' in c.text or '*' in c.text) and not c.desc.startswith('alias-')) or \
+                not all(x.tag.startswith(T) for x, *_ in loadcase.all_nodes(c.doc)):
             return None
         try:
             want = ('ok', ref_admit(c.specs, c.doc, c.tyspec))
